@@ -273,9 +273,9 @@ func init() {
 		core.Registry[id].Rule += " Plus CreateIndex / DropIndex with one store call failing (positions spread over the cases): the index is then wholly there or wholly gone - catalog, raw entries and queries through the re-created index agree."
 	}
 	eConcDDL := &core.Engine{Name: "conc-ddl", Run: RunConcDDL}
-	for id, n := range map[string][2]int{"C02": {150, 4000}, "C07": {150, 4000}, "C14": {100, 2500}} {
+	for id, n := range map[string][2]int{"C02": {150, 4000}, "C07": {150, 4000}, "C14": {100, 2500}, "C04": {150, 3000}} {
 		core.Registry[id].Uses = append(core.Registry[id].Uses, core.Use{E: eConcDDL, Quick: n[0], Thorough: n[1], Race: id == "C07"})
-		core.Registry[id].Rule += " Plus index drop/re-creation next to 2-5 goroutines querying the indexed field of an unchanging collection (every answer, during and after, must be exactly the matching documents; readers are delayed after reading a record)."
+		core.Registry[id].Rule += " Plus index drop/re-creation next to 2-5 goroutines querying the indexed field of an unchanging collection (every answer, during and after, must be exactly the matching documents; readers are delayed after reading a record; in half of the cases a writer makes badger refuse the DDL with a genuine conflict, on the monitored, the unmonitored and the shipped badger store: a refused DDL has no effect)."
 	}
 	// the directed scenario library runs in every check; a scenario that does not guard the property is a no-op
 	eDirected := &core.Engine{Name: "directed", Run: RunDirected}
